@@ -111,3 +111,22 @@ PROPS['C05'] = dict(
     level_text='generated operation histories on intrusive lists, singly linked lists and the queue against abstract sequences; sampling, not proof',
     level_note='trusts the models in exec/C05_*.cc; pool of 24 list nodes, histories <= 300 ops',
 )
+
+PROPS['C06'] = dict(
+    level='exploration',
+    rule='choice tape -> <= 300 ops on two strings (heap or embedded objects): catc/catn/cats/cat and their non-terminating "_" forms with any byte values (NUL, >= 0x80) and lengths '
+         'chosen to land 2/1/0 short of and 1 past the current capacity, catf from 11 typed templates (%s with a string sized to fill the spare room exactly / one more, %.*s, %d, %5u, %x, %c, '
+         '%%, %g, mixed) compared with snprintf on the same arguments, a_utf_catc over all six encoding lengths, getc/getn (with/without destination, counts up to SIZE_MAX), trim/ltrim/rtrim '
+         'with default white space and explicit sets (incl. NUL, high bytes, "every byte of the content"), setn/setn_ within capacity, setm, exit (ownership hand-over, block checked and released), '
+         'swap, dtor+ctor, cmp/cmpn/cmps; after every op len<=mem, content, and the NUL after the content (after terminating variants) are checked against std::string under ASan with an '
+         'allocator ledger. non-trivial = history with a reallocation of a non-empty string, a formatted append that exactly fills the spare capacity, or a trim that empties a string of >= 2 bytes; '
+         'distinct = hash of the decoded op bytes',
+    assumptions=COMMON_ASSUME + ['self-aliasing appends (a_str_cat(ctx, ctx)) are not generated', 'default white-space set = C locale isspace',
+                                 'a_str_setm_ (unchecked) is not called with a capacity below the length'],
+    units=lambda tier, seed: [Unit('str', 'exec/C06.cc', ['a.c', 'str.c', 'utf.c'], tape_len=300)],
+    plan={'quick': dict(rc_procs=10, rc_cases=12000, fuzz_procs=6, fuzz_secs=30),
+          'thorough': dict(rc_procs=8, rc_cases=150000, fuzz_procs=8, fuzz_secs=300)},
+    technique='model-based stateful property-based testing (rapidcheck choice tapes, std::string model, snprintf differential for formatted append) + coverage-guided libFuzzer under ASan/UBSan with an allocator ledger',
+    level_text='generated operation histories on the dynamic string against an abstract byte string, lengths aimed at reallocation boundaries; sampling, not proof',
+    level_note='trusts std::string, glibc snprintf and ASan; histories <= 300 ops, strings <= a few hundred bytes',
+)
